@@ -17,6 +17,7 @@ import time
 import traceback
 
 ROOT = os.path.dirname(os.path.dirname(os.path.abspath(__file__)))
+OUT = os.environ.get("PV_OUT_DIR") or ROOT      # evidence/ and replays/ go here (the self-test redirects them)
 MAX_ROUNDS = 6
 SAMPLES_PER_CLASS = 2
 MAX_SAMPLES = 12
@@ -261,14 +262,14 @@ def reduce_worker(args):
 # ---------------------------------------------------------------------------------------------
 
 def write_replay(pid, bucket, case, detail):
-    d = os.path.join(ROOT, "replays", pid)
+    d = os.path.join(OUT, "replays", pid)
     os.makedirs(d, exist_ok=True)
     h = hashlib.sha1((bucket + json.dumps(case, sort_keys=True, default=str)).encode()).hexdigest()[:12]
     path = os.path.join(d, f"{h}.json")
     with open(path, "w") as fh:
         json.dump({"property": pid, "bucket": bucket, "detail": detail, "case": case}, fh, indent=1,
                   default=str)
-    return os.path.relpath(path, ROOT)
+    return os.path.relpath(path, ROOT) if OUT == ROOT else path
 
 
 def run_replay(pid, path):
@@ -461,8 +462,8 @@ def report(pid, tier, seed, prop, total, active, plan, has_exhaustive, corpus, t
         "wall_s": round(wall, 2),
         "violations": nviol,
     }
-    os.makedirs(os.path.join(ROOT, "evidence"), exist_ok=True)
-    with open(os.path.join(ROOT, "evidence", f"{pid}.json"), "w") as fh:
+    os.makedirs(os.path.join(OUT, "evidence"), exist_ok=True)
+    with open(os.path.join(OUT, "evidence", f"{pid}.json"), "w") as fh:
         json.dump(ev, fh, indent=1, default=str)
     print(f"{pid} {tier} seed={seed}: {total.evaluations} cases, {len(total.nontrivial)} distinct non-trivial, "
           f"{nviol} violation bucket(s), known={dict(total.known)}, skipped={sum(total.skipped.values())}, {wall:.1f}s")
